@@ -303,7 +303,7 @@ theorem inv2_locate (d : Diagram) (s t : Node) (hs : s.WF) (ht : t.WF) (h : d.In
   unfold Diagram.locate
   generalize findLoop s.id t.id d.nodes 0 none none = st
   rcases st with ⟨a, b⟩
-  cases a <;> cases b <;> simp <;>
+  cases a <;> cases b <;> by_cases hl : t.id = s.id <;> simp [hl] <;>
     first
     | exact h
     | exact inv2_addNode _ _ hs h
@@ -641,5 +641,10 @@ theorem T05_5_r0_suffix (xs : List (Node × (List Nat × List Nat) × Nat)) (st 
 
 /-- non-vacuity: a point collection of shape (2, 3) joined with a single point through ε: the collection axis keeps label 0 -/
 example : (calcStep ⟨[0, 1, 2, 3, 4, 5], [], [], [], []⟩ ⟨1, [2, 3], [1], []⟩ ([], []) 0).r0 = [0] := by decide
+
+/-- a loop edge on a node that is not yet in the diagram registers the node once and contracts two of ITS indices
+    (the repaired `add_edge`; before the repair the model, like the code, appended the node twice) -/
+example : ((Diagram.empty.addEdge' ⟨7, [2, 2], [0], [1]⟩ ⟨7, [2, 2], [0], [1]⟩).1.nodes.length,
+           (Diagram.empty.addEdge' ⟨7, [2, 2], [0], [1]⟩ ⟨7, [2, 2], [0], [1]⟩).1.contractions) = (1, [(0, 0, 0, 1)]) := by decide
 
 end Geo
